@@ -14,7 +14,7 @@ pub fn def() -> CheckDef {
         id: "C06",
         level: "exploration",
         cases: |t| match t {
-            Tier::Quick => 1_500,
+            Tier::Quick => 2_500,
             Tier::Thorough => 80_000,
         },
         gen,
